@@ -15,6 +15,8 @@ COMPL = dict(zip("ACGTRYWSMKBDHVN", "TGCAYRWSKMVHDBN"))
 def ident(rng, used, base):
     while True:
         n = base + rng.choice(["", "", str(rng.randint(0, 9)), "_" + rng.choice("xyz"), "-" + rng.choice("abc") + str(rng.randint(0, 9))])
+        if rng.random() < 0.06:
+            n = rng.choice("35") + rng.choice(["", "_"]) + n      # names are [\w-]+ in the component language: `5p`, `3_toe` are legal
         if n not in used and not re.match(r"_Anon\d+\Z", n):
             used.add(n)
             return n
@@ -39,8 +41,11 @@ def spell_parts(rng, parts):
     """text of a quoted region body (without the quotes)"""
     out = []
     for m, c in parts:
+        gap = rng.choice([" ", "\t", "  "]) if rng.random() < 0.12 else ""   # white space inside a part: "3 S", "? N" (all of it is ignored)
         if m == "?":
-            out.append("?" + c)
+            out.append("?" + gap + c)
+        elif gap and not (m == 1 and rng.random() < 0.5):
+            out.append(str(m) + gap + c)
         elif m == 1 and rng.random() < 0.6:
             out.append(c)
         elif isinstance(m, int) and 1 < m <= 3 and rng.random() < 0.2:
